@@ -56,6 +56,9 @@ def expected_for_kind(kind, slot, elem_decoders=None):
     return set(), 0
 
 
+NOISE = {"default", "new", "from_cbor_value", "from_cbor_value_depth", "next", "into_iter", "deref", "try_as_array", "index", "clone"}
+
+
 def guard_summary(o):
     """what the innermost condition of an error site tests: '@len', '@is_empty', '@<callees>' or ''"""
     conds = [c for c in o["conds"] if not (c[0][0] == "discr" and is_call(c[0][1], "core::ops::Try::branch"))]
@@ -63,11 +66,29 @@ def guard_summary(o):
         return ""
     last = conds[-1][0]
     names = []
-    for s in subterms(last):
-        if is_call(s):
-            n = s[1].split("::")[-1]
-            if n not in names:
-                names.append(n)
+
+    def walk(x, depth):
+        if not isinstance(x, tuple) or not x:
+            return
+        if is_call(x):
+            n = x[1].split("::")[-1]
+            d2 = depth + (1 if names else 0)
+            if n not in NOISE:
+                if n not in names:
+                    names.append(n)
+                d2 = depth + 1
+            if d2 < 2:
+                for a in x[2]:
+                    walk(a, d2)
+            return
+        if x[0] in ("binop",):
+            walk(x[2], depth)
+            walk(x[3], depth)
+        elif x[0] in ("unop", "cast"):
+            walk(x[2], depth)
+        elif x[0] in ("ref", "deref", "field", "variant", "tryok", "discr"):
+            walk(x[1], depth)
+    walk(last, 0)
     if "len" in names:
         return "@len"
     if last[0] == "discr":
